@@ -5,7 +5,7 @@ From EosV Require Import lib.AList gen.T_eos model.World model.Status model.Calc
 Import ListNotations.
 Open Scope Z_scope.
 
-Inductive exn := XType | XValue | XKey | XIndex | XSlotTaken | XInternal (e : ierr).
+Inductive exn := XType | XValue | XKey | XIndex | XSlotTaken | XUnknownSource | XInternal (e : ierr).
 
 (* int(x) for a float: truncation towards zero *)
 Definition q_trunc (q : Q) : Z := Z.quot (Qnum q) (Zpos (Qden q)).
@@ -584,6 +584,9 @@ Definition source_set_op (s : st) (x : nat) (new : option nat) : st * res :=
   | None => (lift s (fun w => fail w EKeyAbsent), ROk)
   | Some y =>
     if onat_eqb (ss_source y) new then (s, ROk)
+    else if match new with Some sid => negb (match get_src (fst s) sid with Some _ => true | None => false end)
+                         | None => false end
+    then (s, RExn XUnknownSource)     (* an alias SourceManager does not know: raised before anything is touched *)
     else
       let s := match ss_source y with
                | Some _ => fold_left unload_fit_items (ss_fits y) s
